@@ -65,7 +65,7 @@ Print Assumptions C06_numbers_kept.
     ([pd_nr]) and Period@start = k*P: they tile wall-clock time. *)
 Theorem C06_tiles : forall pph seg mode cont ast snr st now ases ps,
   1 <= pph <= 3600 -> 0 < seg -> ast <= st <= now ->
-  splitPeriod false false pph seg mode cont ast snr st now ases = Ok ps ->
+  splitPeriod false None pph seg mode cont ast snr st now ases = Ok ps ->
   let P := periodDurOf pph in
   let k0 := (st - ast) / (P * 1000) in
   let k1 := (now - ast) / (P * 1000) in
@@ -81,8 +81,8 @@ Print Assumptions C06_tiles.
     MPDs), a period's start is its number times P, so equal ids have equal starts and vice versa. *)
 Theorem C06_ids_stable : forall pph seg mode cont ast snr st1 now1 st2 now2 ases1 ases2 ps1 ps2 p1 p2,
   1 <= pph <= 3600 -> 0 < seg -> ast <= st1 -> ast <= now1 -> ast <= st2 -> ast <= now2 ->
-  splitPeriod false false pph seg mode cont ast snr st1 now1 ases1 = Ok ps1 ->
-  splitPeriod false false pph seg mode cont ast snr st2 now2 ases2 = Ok ps2 ->
+  splitPeriod false None pph seg mode cont ast snr st1 now1 ases1 = Ok ps1 ->
+  splitPeriod false None pph seg mode cont ast snr st2 now2 ases2 = Ok ps2 ->
   In p1 ps1 -> In p2 ps2 ->
   pd_start p1 = pd_nr p1 * periodDurOf pph /\
   (pd_nr p1 = pd_nr p2 <-> pd_start p1 = pd_start p2).
@@ -102,7 +102,7 @@ Print Assumptions C06_ids_stable.
     written next to an empty timeline. *)
 Theorem C06_partition : forall pph seg mode cont ast snr st now ases ps j a es,
   1 <= pph <= 3600 -> 0 < seg -> ast <= st <= now ->
-  splitPeriod false false pph seg mode cont ast snr st now ases = Ok ps ->
+  splitPeriod false None pph seg mode cont ast snr st now ases = Ok ps ->
   nth_error ases j = Some a -> templateType mode a <> MNumber -> a_tl a = Some es ->
   let P := periodDurOf pph in
   let k0 := (st - ast) / (P * 1000) in
@@ -132,7 +132,7 @@ Print Assumptions C06_partition_open.
     period: the one containing its start. *)
 Theorem C06_exactly_one : forall pph seg mode cont ast snr st now ases ps j a es,
   1 <= pph <= 3600 -> 0 < seg -> ast <= st <= now ->
-  splitPeriod false false pph seg mode cont ast snr st now ases = Ok ps ->
+  splitPeriod false None pph seg mode cont ast snr st now ases = Ok ps ->
   nth_error ases j = Some a -> templateType mode a <> MNumber -> a_tl a = Some es ->
   let P := periodDurOf pph in
   let k0 := (st - ast) / (P * 1000) in
@@ -147,10 +147,11 @@ Proof. exact splitPeriod_exactly_one. Qed.
 Print Assumptions C06_exactly_one.
 
 (** The first argument of [splitPeriod] says whether the tree contains the repair "period range
-    covers listed segments" (the harness reads it from the source): [false] = the range is
-    [period of the window start, period of now], [true] = it is widened to the periods of the
-    first and the last listed segment of every SegmentTimeline.  The theorems above are about
-    [false] (and hold for [true] in $Number$ mode, where nothing is widened).
+    covers listed segments" (the harness reads it from the source): [None] = the range is
+    [period of the window start, period of now], [Some atoMS] = it is widened to the periods of the
+    first and the last listed segment of every SegmentTimeline, within [startPeriodNr - 1, period of
+    now + atoMS].  The theorems above are about [None] (and hold for [Some _] in $Number$ mode,
+    where nothing is widened).
 
     WITHOUT the repair: a listed segment that starts at or after the end of the last period
     (availabilityTimeOffset of at least one segment duration) is in no period - ato_3, 2 s
@@ -158,7 +159,7 @@ Print Assumptions C06_exactly_one.
     mode, P1 does not exist yet and P0 ends at 60 s (finding c06-ato-segment-beyond-last-period) ... *)
 Theorem C06_late_segment_before_fix :
   existsb (fun x => fst x =? 5400000) (expandP atoTL) = true /\
-  splitPeriod false false 60 2000 MTimelineTime false 0 0 0 59000
+  splitPeriod false None 60 2000 MTimelineTime false 0 0 0 59000
     [ {| a_image := false; a_ts := Some 90000; a_dur := None; a_startNr := None; a_tl := Some atoTL |} ] =
   Ok [ {| pd_nr := 0; pd_start := 0;
           pd_as := [ {| o_pto := 0; o_startNr := None; o_tl := Some [ {| p_t := Some 0; p_d := 180000; p_r := 29 |} ]; o_cont := false |} ] |} ].
@@ -170,20 +171,20 @@ Print Assumptions C06_late_segment_before_fix.
     a time-shift buffer shorter than a segment nothing at all is listed: tsbd_1, 6 s segments,
     periods_30, now = 121 s - finding c06-listed-segment-before-first-period). *)
 Theorem C06_early_segment_before_fix :
-  splitPeriod false false 30 6000 MTimelineTime false 0 0 120000 121000 [earlyAS] =
+  splitPeriod false None 30 6000 MTimelineTime false 0 0 120000 121000 [earlyAS] =
   Ok [ {| pd_nr := 1; pd_start := 120; pd_as := [ {| o_pto := 10800000; o_startNr := None; o_tl := Some []; o_cont := false |} ] |} ].
 Proof. exact early_segment_before_fix. Qed.
 Print Assumptions C06_early_segment_before_fix.
 
 (** WITH the repair both segments have their period ... *)
 Theorem C06_late_early_segment_after_fix :
-  splitPeriod false true 60 2000 MTimelineTime false 0 0 0 59000
+  splitPeriod false (Some 3000) 60 2000 MTimelineTime false 0 0 0 59000
     [ {| a_image := false; a_ts := Some 90000; a_dur := None; a_startNr := None; a_tl := Some atoTL |} ] =
   Ok [ {| pd_nr := 0; pd_start := 0;
           pd_as := [ {| o_pto := 0; o_startNr := None; o_tl := Some [ {| p_t := Some 0; p_d := 180000; p_r := 29 |} ]; o_cont := false |} ] |};
        {| pd_nr := 1; pd_start := 60;
           pd_as := [ {| o_pto := 5400000; o_startNr := None; o_tl := Some [ {| p_t := Some 5400000; p_d := 180000; p_r := 0 |} ]; o_cont := false |} ] |} ] /\
-  splitPeriod false true 30 6000 MTimelineTime false 0 0 120000 121000 [earlyAS] =
+  splitPeriod false (Some 0) 30 6000 MTimelineTime false 0 0 120000 121000 [earlyAS] =
   Ok [ {| pd_nr := 0; pd_start := 0;
           pd_as := [ {| o_pto := 0; o_startNr := None; o_tl := Some [ {| p_t := Some 10260000; p_d := 540000; p_r := 0 |} ]; o_cont := false |} ] |};
        {| pd_nr := 1; pd_start := 120; pd_as := [ {| o_pto := 10800000; o_startNr := None; o_tl := Some []; o_cont := false |} ] |} ].
@@ -196,10 +197,16 @@ Print Assumptions C06_late_early_segment_after_fix.
     availabilityTimeOffset, the time-shift buffer or where the first and last segment start is
     left; each period still holds exactly the segments that start inside it, with the same
     presentationTimeOffset and startNumber statements.  [tlBound] only asks of every
-    AdaptationSet a sane timescale and times below 2^63 (no wrap in first/periodTicks). *)
-Theorem C06_partition_full : forall pph seg mode cont ast snr st now ases ps j a s0 rest t0 HI,
+    AdaptationSet a sane timescale and times below 2^63 (no wrap in first/periodTicks).
+    Since commit ea1922e the widening is bounded; the last premise says that the first listed
+    segment begins less than one period before the period of the window start and the last one
+    not after the period of now + ato - true of every timeline LiveMPD produces (the first listed
+    segment ends after the window start, the last begins before now + ato: the window shape
+    proved for C02, theories/Window.v), stated here as a premise because the single-period
+    timeline is an input of this model. *)
+Theorem C06_partition_full : forall atoMS pph seg mode cont ast snr st now ases ps j a s0 rest t0 HI,
   1 <= pph <= 3600 -> 0 < seg -> ast <= st <= now -> mode <> MNumber ->
-  splitPeriod false true pph seg mode cont ast snr st now ases = Ok ps ->
+  splitPeriod false (Some atoMS) pph seg mode cont ast snr st now ases = Ok ps ->
   nth_error ases j = Some a -> a_image a = false -> a_tl a = Some (s0 :: rest) -> p_t s0 = Some t0 ->
   Forall (fun s => 0 <= p_r s < two32) (s0 :: rest) ->
   let es := s0 :: rest in
@@ -208,6 +215,9 @@ Theorem C06_partition_full : forall pph seg mode cont ast snr st now ases ps j a
   let ts := tsOf a in
   goodTL es (snrFor mode a) ts HI -> (k1 + 1) * P <= HI ->
   Forall (tlBound P HI) ases ->
+  (forall f l, firstLast es = Some (f, l) ->
+     (st - ast) / (P * 1000) - 1 <= f / (P * ts) /\
+     l / (P * ts) <= kmaxOf (Some atoMS) P ast now k1) ->
   flat_map (periodTimeline j) ps = expandP es /\
   Forall (fun p => periodTimeline j p = filter (inWin (pd_nr p * P * ts) ((pd_nr p + 1) * P * ts)) (expandP es) /\
                    periodPTO j p = Some (pd_start p * ts) /\
@@ -219,12 +229,16 @@ Theorem C06_partition_full : forall pph seg mode cont ast snr st now ases ps j a
 Proof. exact splitPeriod_partition_full. Qed.
 Print Assumptions C06_partition_full.
 
-(** the widened range only grows and reaches the period of every first and last listed segment *)
-Theorem C06_widened_range : forall P ases k0 k1 ka kb,
-  widenRange P ases k0 k1 = Ok (ka, kb) ->
-  ka <= k0 /\ k1 <= kb /\
+(** the widened range only grows, never leaves [kmin, kmax] = [startPeriodNr - 1, period of
+    now + ato] (commit ea1922e: whatever the timeline says - a timeline with wrong times cannot
+    make the number of periods explode), and reaches the period of every first and last listed
+    segment that lies within these bounds *)
+Theorem C06_widened_range : forall P kmin kmax ases k0 k1 ka kb,
+  widenRange P ases kmin kmax k0 k1 = Ok (ka, kb) ->
+  ka <= k0 /\ k1 <= kb /\ (kmin <= k0 -> kmin <= ka) /\ (k1 <= kmax -> kb <= kmax) /\
   (forall a ss f l, In a ases -> a_tl a = Some ss -> firstLast ss = Some (f, l) ->
-     ka <= i64 (f / ptOf P a) /\ i64 (l / ptOf P a) <= kb).
+     (kmin <= i64 (f / ptOf P a) -> ka <= i64 (f / ptOf P a)) /\
+     (i64 (l / ptOf P a) <= kmax -> i64 (l / ptOf P a) <= kb)).
 Proof. exact widenRange_covers. Qed.
 Print Assumptions C06_widened_range.
 
@@ -269,7 +283,7 @@ Print Assumptions C06_guard_aligned.
 (** start_1000 and snr_5 (commits 961c9dc, bde286d): periods are counted from
     availabilityStartTime and numbers are offset by the start number. *)
 Theorem C06_snr_start_example :
-  splitPeriod false false 60 2000 MNumber false 1000000 5 1060500 1120500
+  splitPeriod false None 60 2000 MNumber false 1000000 5 1060500 1120500
     [ {| a_image := false; a_ts := None; a_dur := Some 2; a_startNr := Some 5; a_tl := None |} ] =
   Ok [ {| pd_nr := 1; pd_start := 60; pd_as := [ {| o_pto := 60; o_startNr := Some 35; o_tl := None; o_cont := false |} ] |};
        {| pd_nr := 2; pd_start := 120; pd_as := [ {| o_pto := 120; o_startNr := Some 65; o_tl := None; o_cont := false |} ] |} ].
@@ -350,7 +364,7 @@ Print Assumptions C06_continuity.
 Theorem C06_accepted_total : forall pph seg mode cont ast snr st now ases,
   1 <= pph <= 3600 -> 0 < seg -> (periodDurOf pph * 1000) mod seg = 0 -> ast <= st <= now ->
   Forall (wellShaped mode) ases ->
-  exists ps, splitPeriod false false pph seg mode cont ast snr st now ases = Ok ps.
+  exists ps, splitPeriod false None pph seg mode cont ast snr st now ases = Ok ps.
 Proof. exact splitPeriod_total. Qed.
 Print Assumptions C06_accepted_total.
 
@@ -378,7 +392,7 @@ Print Assumptions C06_pph_guard_needed.
     periods are P0 (38 s .. 60 s) and P1 (60 s .. 100 s). *)
 Example C06_example :
   goodTL exTL (Some 19) 90000 120 /\
-  splitPeriod false false 60 2000 MTimelineNr true 0 0 40000 100000 [exAS] =
+  splitPeriod false None 60 2000 MTimelineNr true 0 0 40000 100000 [exAS] =
   Ok [ {| pd_nr := 0; pd_start := 0;
           pd_as := [ {| o_pto := 0; o_startNr := Some 19;
                         o_tl := Some [ {| p_t := Some 3420000; p_d := 180000; p_r := 10 |} ]; o_cont := true |} ] |};
